@@ -489,3 +489,40 @@ pub mod shadowed_ctx {
         pub u: ::core::marker::PhantomData<U>,
     }
 }
+
+/// crate-local modules that are named like modules of std / core: a relative path through them means the local item
+pub mod ops {
+    #[derive(super::TypeInfo)]
+    pub struct Range<T> {
+        pub from: T,
+        pub len: u8,
+    }
+}
+pub mod time {
+    #[derive(super::TypeInfo)]
+    pub struct Duration(pub u16);
+}
+pub mod marker {
+    #[derive(super::TypeInfo)]
+    pub struct PhantomData<T>(pub T);
+}
+
+#[derive(TypeInfo)]
+pub struct LocalModules {
+    pub a: ops::Range<u32>,
+    pub b: time::Duration,
+    pub c: marker::PhantomData<u8>,
+    pub d: core::ops::Range<u32>,
+}
+
+/// a const parameter with a default (the default belongs to the declaration, not to the impl header)
+#[derive(TypeInfo)]
+pub struct ConstDefault<T, const N: usize = 4> {
+    pub items: [T; N],
+}
+
+#[derive(TypeInfo)]
+pub enum ConstDefaultEnum<const N: usize = 2, const M: u8 = 7> {
+    A([u8; N]),
+    B,
+}
